@@ -492,6 +492,17 @@ class BuiltinMixin:
                 outs.append(self.raise_out(s2, "ValueError", node))
         return outs
 
+    def bm_list_remove(self, st, recv, args, kwargs, node):
+        """list.remove(x): delete the first element equal to x (identity/value equality as in list.index)."""
+        outs = []
+        for o in self.bm_list_index(st, recv, args, kwargs, node):
+            if o.kind != "val":
+                outs.append(o)
+                continue
+            for o2 in self.list_delete(o.st, recv, o.val, node):
+                outs.append(Out("val", o2.st, vnone()) if o2.kind == "normal" else o2)
+        return outs
+
     def bm_list_pop(self, st, recv, args, kwargs, node):
         r = V.r(recv.z)
         n = st.hread("$llen", r)
